@@ -90,10 +90,45 @@ def untracked_forms_under_a_tracker():
     return out
 
 
+def writers_in_propagation():
+    """a computation W writes, while a write is being propagated, a signal t that another computation X -- already updated in this
+    propagation -- read with tracking in the run it just finished: the write to t must re-run X (the 'if' direction of the property
+    inside a propagation). W subscribed before X, so X runs first; the order flips on every round"""
+    out = []
+    for wk in ("effect", "memo"):
+        for xk in ("effect", "memo", "selector"):
+            for how in ("plain", "batch", "on", "nested", "self"):
+                w_ss = [("set", 2, ("mul", ("get", 1), ("lit", 100)))]
+                w_on = None
+                if how == "batch":
+                    w_ss = [("batch", w_ss)]
+                elif how == "on":
+                    w_on, w_ss = [1], [("set", 2, ("mul", ("getu", 1), ("lit", 100)))]
+                elif how == "self":
+                    w_ss = [("if", ("lt", ("lit", 3), ("get", 1)), [("set", 1, ("lit", 3))], [])]     # W clamps the source itself
+                w = (wk, 3, ("body", w_on, w_ss, ("get", 1) if w_on is None else ("lit", 0)))
+                xbody = ("body", None, [], ("add", ("get", 1), ("get", 2)))
+                x = (xk, 4, xbody) if xk != "selector" else ("selector", 4, 0, xbody)
+                if how == "nested":
+                    x = ("effect", 9, ("body", None, [x], ("get", 1)))                                  # X re-created by its owner
+                prog = [("signal", 1, ("lit", 0)), ("signal", 2, ("lit", 0)), w, x,
+                        ("effect", 5, ("body", None, [], ("get", 4) if xk != "effect" and how != "nested" else ("lit", 0)))]
+                prog += [("set", 1, ("lit", v)) for v in (1, 2, 5, 3)]
+                out.append(prog)
+    return out
+
+
+def oracle(prog, steps):
+    """the subscription oracle, plus the 'if' direction at the position of every write, including the writes a computation makes
+    while another write is being propagated"""
+    return rcheck.subscription_failures(prog, steps) + rcheck.write_rerun_failures(prog, steps)
+
+
 def gen(tier, rng):
     n_rand = 800 if tier == "quick" else 10000
     cases = [("readforms:%d" % i, p) for i, p in enumerate(read_forms(rng))]
     cases += [("under-tracker:%d" % i, p) for i, p in enumerate(untracked_forms_under_a_tracker())]
+    cases += [("writers:%d" % i, p) for i, p in enumerate(writers_in_propagation())]
     cases += [("random:%d" % i, p) for i, p in
               enumerate(reactive_gen.random_programs(rng.randrange(1 << 30), n_rand, FEATS, (3, 8), (3, 7)))]
     return cases
@@ -113,7 +148,7 @@ def main(argv):
     return rcheck.run(
         PID, argv, module="C03", theorems=['C03_run_node_spec', 'C03_untracked_reads_do_not_subscribe', 'C03_eval_depends_on_reads_only', 'C03_edges_symmetric',
                                           'C03_untrack_never_subscribes', 'C03_component_never_subscribes', 'C03_cleanups_never_subscribe', 'C03_rerun_cleanups_never_subscribe',
-                                          'C03_on_tracks_deps_only', 'C03_get_untracked_never_subscribes', 'C03_get_subscribes'], bridge=1500, extra_targets=["theories/Reactive/Bridge.vo"], gen=gen, oracle=rcheck.subscription_failures, nontrivial=nontrivial,
+                                          'C03_on_tracks_deps_only', 'C03_get_untracked_never_subscribes', 'C03_get_subscribes'], bridge=1500, extra_targets=["theories/Reactive/Bridge.vo"], gen=gen, oracle=oracle, nontrivial=nontrivial,
         rule=("read-form combinatorics: every pair of the 11 read forms (get, get_untracked, untrack, component body, on() "
               "dependency, on() body, cleanup callback, track, nested scope, duplicate read, signal created in the same run) in "
               "a memo, an effect and a selector, followed by a write to every signal; random programs rich in untracked forms; "
